@@ -188,6 +188,10 @@ def elf_unit(args):
                 fails.append(Failure(("elf", name, "load-exc:%s@%s" % exc_sig(ex)), "%s %s pagesize %d: load_program raised %r" % (name, lab, ps, ex), cdesc).to_json())
                 continue
             if task is None:
+                if any(p["p_offset"] < (p["p_vaddr"] % ps) for p in desc["phdrs"]):
+                    # rejected, and the page holding a segment start would begin before the file: not a loadable image at
+                    # this page size (a paging loader needs p_offset >= p_vaddr mod pagesize); outside the quantifier
+                    continue
                 fails.append(Failure(("elf", name, "no-task"), "%s %s pagesize %d: load_program returned None" % (name, lab, ps), cdesc).to_json())
                 continue
             loads = [(p["p_vaddr"], p["p_offset"], p["p_filesz"], p["p_memsz"]) for p in desc["phdrs"]]
